@@ -229,15 +229,6 @@ theorem ofLay_lfc (p : V1P) (lay : V1Lay) (f : V1File) (lo : LayOk lay) (hv : Va
       omega
   omega
 
-theorem insW_snd (d : Bool) (w : Str) : (insW d w).2 = (d || hasLF w) := by
-  cases d <;> cases h : hasLF w <;> simp [insW, h]
-
-theorem ofLay_flag (lay : V1Lay) (f : V1File) (lo : LayOk lay) :
-    (V1W.ofLay lay f).ins.2 = lay.headerHasLF f.withCompression := by
-  have hi := (wsNoLF_spec _ lo.indent).2.2
-  simp only [V1W.ins, V1W.compIns, insW_snd, V1W.ofLay, hi, (sep_spec _).2.2.1, V1Lay.headerHasLF]
-  cases f.withCompression <;> simp [insW_snd, (sep_spec _).2.2.1]
-
 theorem encodeChar_ascii (tbl : List (Option Nat)) (cs : Name) (c : Char) (hc : c.toNat < 128) :
     encodeChar tbl cs c = some [byteOf c.toNat] := by
   cases cs
@@ -283,7 +274,8 @@ theorem xml_nomatch (s : Str) (h : ∀ c ∈ s.head?, c ≠ '<') : reMatch xmlRe
 theorem firstLines_succ (n : Nat) (bs : Bytes) :
     firstLines (n + 1) bs = splitLine bs ++ firstLines n (bs.drop (splitLine bs).length) := rfl
 
-theorem chars_head (b : UInt8) (bs : Bytes) : chars (b :: bs) = byteChar b :: chars bs := rfl
+theorem chars_head (b : UInt8) (bs : Bytes) (hb : b.toNat < 128) : chars (b :: bs) = byteChar b :: chars bs := by
+  simp [chars, decodeAsciiReplace, hb]
 
 theorem firstLines_head (n : Nat) (b : UInt8) (bs : Bytes) : ∃ r, firstLines (n + 1) (b :: bs) = b :: r := by
   rw [firstLines_cons]
@@ -295,29 +287,25 @@ theorem text_head (t : V1W) (R : Str) : ∃ Y, t.text R = t.indent ++ 'O' :: Y :
   rw [ofx_toList]
   exact ⟨_, rfl⟩
 
-/-- **C05 for v1 files**: every tolerated layout outside the two defective shapes -/
+/-- **C05 for v1 files**: every tolerated layout -/
 theorem parse_v1 (p1 : V1P) (p2 : V2P) (tbl : List (Option Nat)) (lay : V1Lay) (f : V1File) (body : Str)
     (bb : Bytes) (cs : Name) (hv : ValidV1 p1 f.h)
     (hcomp : f.withCompression = false → f.h.compression = "NONE".toList)
     (hcodec : codecV1 p1 f.h = .ok cs) (henc : encode tbl cs body = .ok bb)
     (hb0 : body.head? = some '<') (hb1 : body.getLast? = some '>')
-    (htol : lay.tolerated = true) (hg1 : lay.notGlued f.withCompression = true)
-    (hg2 : headerLinesAscii lay f bb = true) :
+    (htol : lay.tolerated = true) :
     parseHeader p1 p2 tbl (renderV1 lay f bb) = .ok (.v1 f.h, body) := by
   have lo := layOk_of_tolerated lay htol
   obtain ⟨ok, nl⟩ := ofLay_ok p1 lay f lo hv
   have hA := ofLay_ascii p1 lay f lo hv
   have hlf := ofLay_lfc p1 lay f lo hv
-  have hflag := ofLay_flag lay f lo
   obtain ⟨gs, gas⟩ := asciiSpace_spec _ lo.gap
-  -- the body starts with '<'
   obtain ⟨brest, hbody⟩ : ∃ r, body = '<' :: r := by
     cases body with
     | nil => simp at hb0
     | cons c r => simp at hb0; exact ⟨r, by rw [hb0]⟩
   obtain ⟨bb', hbb⟩ := encode_cons_ascii tbl cs '<' brest bb (by decide) (hbody ▸ henc)
-  -- names
-  generalize hT : V1W.ofLay lay f = t at ok nl hA hlf hflag
+  generalize hT : V1W.ofLay lay f = t at ok nl hA hlf
   generalize hAdef : t.text [] = A at hA hlf
   have hF : lay.indent ++ v1Fields lay f = A ++ lay.gap := by
     rw [v1Text_eq, hT, ← hAdef, ← text_append]; rfl
@@ -325,22 +313,6 @@ theorem parse_v1 (p1 : V1P) (p2 : V2P) (tbl : List (Option Nat)) (lay : V1Lay) (
   let F : Bytes := asciiBytes A ++ G
   have hfile : renderV1 lay f bb = asciiBytes (leadingText lay.leading) ++ F := by
     simp only [renderV1, v1Text, asciiBytes_append, hF, List.append_assoc, F, G]
-  have hLA : isAscii (leadingText lay.leading) := by
-    have : ∀ ls : List Str, (∀ l ∈ ls, wsNoLF l = true) → isAscii (leadingText ls) := by
-      intro ls
-      induction ls with
-      | nil => intro _; exact isAscii_nil
-      | cons l ls ih =>
-        intro h
-        refine isAscii_append.2 ⟨(wsNoLF_spec l (h l (by simp))).2.1, isAscii_cons.2 ⟨by decide, ?_⟩⟩
-        exact ih (fun x hx => h x (by simp [hx]))
-    exact this _ lo.leading
-  -- the nine lines read as header text are ASCII
-  have hasc9 : asciiB (firstLines 9 F) := by
-    have : asciiBytes (lay.indent ++ v1Fields lay f) ++ bb = F := by
-      simp only [hF, asciiBytes_append, List.append_assoc, F, G]
-    simp only [headerLinesAscii, this, List.all_eq_true, decide_eq_true_eq] at hg2
-    exact hg2
   -- shape of the first line
   obtain ⟨rest1, hline1⟩ : ∃ r, chars (splitLine F) = lay.indent ++ 'O' :: r := by
     have hi := wsNoLF_spec _ lo.indent
@@ -352,12 +324,8 @@ theorem parse_v1 (p1 : V1P) (p2 : V2P) (tbl : List (Option Nat)) (lay : V1Lay) (
       simp [asciiBytes]
     refine ⟨chars (splitLine (asciiBytes Y ++ G)), ?_⟩
     rw [e2, splitLine_noLF _ _ hi.2.1 hi.2.2, splitLine_cons, if_neg (by decide), chars_append,
-      chars_asciiBytes _ hi.2.1]
+      chars_asciiBytes _ hi.2.1, chars_head _ _ (by decide)]
     rfl
-  -- the header line is found after the leading blank lines
-  have hasc1 : asciiB (splitLine F) := fun b hb => hasc9 b (by rw [firstLines_succ]; simp [hb])
-  have hasc8 : asciiB (firstLines 8 (F.drop (splitLine F).length)) :=
-    fun b hb => hasc9 b (by rw [firstLines_succ]; simp [hb])
   obtain ⟨hs, hsdef⟩ : ∃ hs, (leadingText lay.leading).length = hs := ⟨_, rfl⟩
   have hdropF : (renderV1 lay f bb).drop hs = F := by
     rw [hfile, ← hsdef]
@@ -368,13 +336,12 @@ theorem parse_v1 (p1 : V1P) (p2 : V2P) (tbl : List (Option Nat)) (lay : V1Lay) (
       (by have := lo.leadingLen; omega)]
     obtain ⟨k, hk⟩ : ∃ k, 8 - lay.leading.length = k + 1 := ⟨7 - lay.leading.length, by have := lo.leadingLen; omega⟩
     rw [hk, findHeader]
-    simp only [readline, Nat.zero_add, hsdef, hdropF, decodeAscii_of_ascii _ hasc1, bind, Except.bind]
+    simp only [readline, Nat.zero_add, hsdef, hdropF]
     have : strip (chars (splitLine F)) ≠ [] :=
       strip_ne_nil_of_mem _ 'O' (by rw [hline1]; simp) (by decide)
     cases hst : strip (chars (splitLine F)) with
     | nil => exact absurd hst this
-    | cons c cs => rfl
-  -- no XML declaration on it
+    | cons c cs => simp [chars] at hst ⊢; simp [hst]; rfl
   have hxml : reMatch xmlRegex (chars (splitLine F)) = none := by
     apply xml_nomatch
     rw [hline1]
@@ -387,23 +354,17 @@ theorem parse_v1 (p1 : V1P) (p2 : V2P) (tbl : List (Option Nat)) (lay : V1Lay) (
       have := (wsNoLF_spec _ lo.indent).1 d (by rw [hi]; simp)
       rw [e] at this
       exact absurd this (by decide)
-  -- the eight further lines
-  have hmore : moreLines (renderV1 lay f bb) 8 (hs + (splitLine F).length) =
-      .ok (chars (firstLines 8 (F.drop (splitLine F).length))) := by
-    have e : (renderV1 lay f bb).drop (hs + (splitLine F).length) = F.drop (splitLine F).length := by
-      rw [← List.drop_drop, hdropF]
-    rw [moreLines_eq _ _ _ (by rw [e]; exact hasc8), e]
-  -- rawheader
+  -- rawheader: the first nine lines
   have hlfA : lfCount (asciiBytes A) < 9 := by rw [lfCount_ascii A hA]; omega
   obtain ⟨k, hk⟩ : ∃ k, 9 - lfCount (asciiBytes A) = k + 1 := ⟨8 - lfCount (asciiBytes A), by omega⟩
   let R0 : Str := chars (firstLines (k + 1) G)
-  have hraw : chars (splitLine F) ++ '\n' :: chars (firstLines 8 (F.drop (splitLine F).length)) =
-      t.ins.1.text (insD t.ins.2 R0) := by
-    rw [raw_eq_ins 8 F]
+  have hraw : chars (splitLine F) ++ moreLines (renderV1 lay f bb) 8 (hs + (splitLine F).length) = t.text R0 := by
+    have e : (renderV1 lay f bb).drop (hs + (splitLine F).length) = F.drop (splitLine F).length := by
+      rw [← List.drop_drop, hdropF]
+    rw [moreLines_eq, e, ← chars_append, ← firstLines_succ]
     have : firstLines 9 F = asciiBytes A ++ firstLines (k + 1) G := by
       rw [← hk]; exact firstLines_append _ _ 9 hlfA
     rw [this, chars_append, chars_asciiBytes A hA, ← hAdef, ← text_append, List.nil_append]
-    exact V1W.ins_text t R0 ok nl
   -- what follows the NEWFILEUID value is not a word character
   have hR0 : ∀ c ∈ R0.head?, isWordDash c = false := by
     intro c hc
@@ -411,14 +372,14 @@ theorem parse_v1 (p1 : V1P) (p2 : V2P) (tbl : List (Option Nat)) (lay : V1Lay) (
     | nil =>
       have eG : G = byteOf ('<').toNat :: bb' := by simp only [G, hg, hbb]; rfl
       obtain ⟨r, hr⟩ := firstLines_head k (byteOf ('<').toNat) bb'
-      simp only [R0, eG, hr, chars_head] at hc
+      simp only [R0, eG, hr, chars_head _ _ (show (byteOf ('<').toNat).toNat < 128 by decide)] at hc
       simp at hc; subst hc; decide
     | cons g gr =>
+      have hga : g.toNat < 128 := gas g (by rw [hg]; simp)
       have eG : G = byteOf g.toNat :: (asciiBytes gr ++ bb) := by simp only [G, hg]; rfl
       obtain ⟨r, hr⟩ := firstLines_head k (byteOf g.toNat) (asciiBytes gr ++ bb)
-      simp only [R0, eG, hr, chars_head] at hc
+      simp only [R0, eG, hr, chars_head _ _ (show (byteOf g.toNat).toNat < 128 by rw [byteOf_toNat _ (by omega)]; exact hga)] at hc
       simp at hc; subst hc
-      have hga : g.toNat < 128 := gas g (by rw [hg]; simp)
       rw [byteChar_byteOf g (by omega)]
       cases hw : isWordDash g with
       | false => rfl
@@ -426,14 +387,7 @@ theorem parse_v1 (p1 : V1P) (p2 : V2P) (tbl : List (Option Nat)) (lay : V1Lay) (
         have := wordDash_not_space g hw
         rw [gs g (by rw [hg]; simp)] at this
         cases this
-  have hR' : ∀ c ∈ (insD t.ins.2 R0).head?, isWordDash c = false := by
-    unfold insD
-    split
-    · exact hR0
-    · exact head_ins R0 isWordDash (by decide) hR0
-  have hmatch := reSearch_of_match _ _ _ (v1_match t.ins.1 (insD t.ins.2 R0) (V1W.ins_ok t ok) hR')
-  rw [V1W.ins_caps] at hmatch
-  -- the constructor accepts the captured values
+  have hmatch := reSearch_of_match _ _ _ (v1_match t R0 ok hR0)
   have hcaps : t.caps = [some (pyStrInt f.h.ofxheader), some f.h.data, some (pyStrInt f.h.version), some f.h.security,
       some f.h.encoding, some f.h.charset, (if f.withCompression then some f.h.compression else none),
       some f.h.oldfileuid, some f.h.newfileuid] := by
@@ -444,57 +398,28 @@ theorem parse_v1 (p1 : V1P) (p2 : V2P) (tbl : List (Option Nat)) (lay : V1Lay) (
     cases hw : f.withCompression
     · exact Or.inr ⟨rfl, hcomp hw⟩
     · exact Or.inl rfl)
-  -- lengths
-  have hlen : (t.ins.1.text (insD t.ins.2 R0)).length - (insD t.ins.2 R0).length =
-      A.length + (if t.ins.2 then 1 else 0) := by
-    have h1 : (t.ins.1.text (insD t.ins.2 R0)).length = A.length + R0.length + 1 := by
-      rw [← V1W.ins_text t R0 ok nl, ins_length]
-      have : t.text R0 = A ++ R0 := by rw [← hAdef, ← text_append]; rfl
-      rw [this, List.length_append]
-    rw [h1]
-    unfold insD
-    cases t.ins.2
-    · simp [ins_length]
-    · simp; omega
-  have hparse : parseV1 p1 (t.ins.1.text (insD t.ins.2 R0)) =
-      .ok (f.h, A.length + (if t.ins.2 then 1 else 0)) := by
+  have hlen : (t.text R0).length - R0.length = A.length := by
+    have : t.text R0 = A ++ R0 := by rw [← hAdef, ← text_append]; rfl
+    rw [this, List.length_append]; omega
+  have hparse : parseV1 p1 (t.text R0) = .ok (f.h, A.length) := by
     unfold parseV1
     rw [hmatch, hcaps]
     simp only [hctor, bind, Except.bind, pure, Except.pure, hlen]
-  -- the body
-  have hdec : ∀ w : Str, allSpace w → isAscii w → (strip <$> decode tbl cs (asciiBytes w ++ bb)) = .ok body := by
-    intro w hw hwa
-    rw [decode_ascii_prefix tbl cs w hwa bb, decode_encode tbl cs body bb henc]
-    simp only [Except.map, Functor.map]
-    have := strip_ws_body w body hw '<' brest hbody (by decide) '>' hb1 (by decide)
-    rw [this]
-  have hmsg : (strip <$> decode tbl cs ((renderV1 lay f bb).drop (hs + (A.length + (if t.ins.2 then 1 else 0))))) =
-      .ok body := by
-    have e : (renderV1 lay f bb).drop (hs + (A.length + (if t.ins.2 then 1 else 0))) =
-        G.drop (if t.ins.2 then 1 else 0) := by
-      rw [← List.drop_drop, hdropF, ← List.drop_drop]
-      have : F.drop A.length = G := List.drop_left' (asciiBytes_length _)
-      rw [this]
+  -- the body: byte-exact offset, declared codec, strip
+  have hmsg : (strip <$> decode tbl cs ((renderV1 lay f bb).drop (hs + A.length))) = .ok body := by
+    have e : (renderV1 lay f bb).drop (hs + A.length) = G := by
+      rw [← List.drop_drop, hdropF]
+      exact List.drop_left' (asciiBytes_length _)
     rw [e]
-    cases hd : t.ins.2 with
-    | false => simpa [G] using hdec lay.gap gs gas
-    | true =>
-      have hne : lay.gap ≠ [] := by
-        intro hge
-        rw [hd] at hflag
-        simp [V1Lay.notGlued, ← hflag, hge] at hg1
-      cases hg : lay.gap with
-      | nil => exact absurd hg hne
-      | cons g gr =>
-        have : G.drop 1 = asciiBytes gr ++ bb := by simp only [G, hg]; rfl
-        simp only [if_true, this]
-        exact hdec gr (fun c hc => gs c (by rw [hg]; simp [hc])) (fun c hc => gas c (by rw [hg]; simp [hc]))
-  -- assemble
+    simp only [G]
+    rw [decode_ascii_prefix tbl cs lay.gap gas bb, decode_encode tbl cs body bb henc]
+    simp only [Except.map, Functor.map]
+    rw [strip_ws_body lay.gap body gs '<' brest hbody (by decide) '>' hb1 (by decide)]
   unfold parseHeader
-  simp only [hfind, bind, Except.bind, hxml, hmore, hraw, hparse, hcodec]
+  simp only [hfind, bind, Except.bind, hxml, hraw, hparse, hcodec]
   have := hmsg
   simp only [Functor.map, Except.map] at this
-  cases hdd : decode tbl cs ((renderV1 lay f bb).drop (hs + (A.length + (if t.ins.2 then 1 else 0)))) with
+  cases hdd : decode tbl cs ((renderV1 lay f bb).drop (hs + A.length)) with
   | error e => rw [hdd] at this; cases this
   | ok m =>
     rw [hdd] at this
